@@ -107,8 +107,8 @@ PENDING = "check not built yet in this round (see DESIGN.md section 10 for the o
 
 CHECKS.update({
     "C06": ("relang", TV, "SMT regular-language emptiness on the program the real code compiled for every expression that builds: no matched path exhibits two adjacent component boundaries, and all matched paths are rooted / unrooted as has_root() says, for all unfoldings of branches and repetitions at once",
-            "Acceptance soundness of the language-visible rules: for every generated expression that builds (program grammar + a family of ~15000 expressions around the rules, most of which must be rejected) the compiled pattern is restricted to L'(g) (tree wildcards over whole components, zero-or-more wildcards non-empty, repetitions iterating at least once) and z3 decides L'(g) contains no `//` and is entirely rooted or entirely unrooted in agreement with has_root(), which must be Always or Never; witnesses are replayed through the real is_match.",
-            "One direction only: that well-formed expressions are not rejected, and the rules that leave no trace in the language (adjacent zero-or-more wildcards, bodies solely a wildcard / separator, bounds, size limit), are outside the claim -- the rule checker and parser cannot be executed symbolically (DESIGN 2, 11.5). Known finding: branches nested two or more levels deep (context leak).",
+            "Acceptance soundness of the language-visible rules: for every generated expression that builds (program grammar + a family of ~26000 expressions around the rules, most of which must be rejected) the compiled pattern is restricted to L'(g) (tree wildcards over whole components, zero-or-more wildcards non-empty, repetitions iterating at least once) and z3 decides L'(g) contains no `//` and is entirely rooted or entirely unrooted in agreement with has_root(), which must be Always or Never; with every zero-or-more wildcard replaced by a marker character (and repetition bodies taken once), no string of the program has two adjacent markers (no two zero-or-more wildcards adjacent whichever branches are chosen); witnesses are replayed through the real is_match.",
+            "One direction only: that well-formed expressions are not rejected, and the rules that leave no trace in the compiled program (bodies solely a wildcard / separator, bounds, size limit), are outside the claim -- the rule checker and parser cannot be executed symbolically (DESIGN 2, 11.5). Known finding: branches nested two or more levels deep (context leak).",
             "11.5 C06"),
     "C17": ("kani", MC, "bounded model checking (Kani/CBMC), full width, of the real span arithmetic: parse error span for every char at the fault, span union, composite span accessors, span adjustment of an unrooted tree wildcard",
             "Kernel level: for every character at the location of a parse error (all of char, any UTF-8 width; or end of input) the reported span lies within the expression and ends on a character boundary; the union that locates rule errors is the hull of its operands (so it preserves bounds and character boundaries); CompositeSpan / CorrelatedSpan report the spans they were given; unrooting a rooted tree wildcard moves its span start by exactly the bytes it reports. Failures are reproduced through Glob::new / captures() / partition() on a battery of expressions.",
